@@ -611,12 +611,10 @@ Proof.
     exact Hb.
 Qed.
 
-Lemma upserts_settled : forall b es, fold_left settle (upsert_script b es) true = true.
-Proof.
-  intros b es. induction es as [|e es IH]; [reflexivity|].
-  unfold upsert_script in *. cbn [flat_map]. rewrite fold_left_app.
-  destruct (eid e); cbn; exact IH.
-Qed.
+(* insert_many: whatever the upserts leave, the script ends with the conditional_commit of
+   the finally clause (the upserts alone settle nothing since a00ceb1) *)
+Lemma ends_with_cc_settled : forall ms m k b, fold_left settle (ms ++ [m; SCondCommit k]) b = true.
+Proof. intros. rewrite fold_left_app. reflexivity. Qed.
 
 Lemma sscript_settled : forall c o, fold_left settle (sscript c o) true = true.
 Proof.
@@ -627,14 +625,14 @@ Proof.
   - reflexivity.
   - reflexivity.
   - destruct (sql_bucket_rowid c b); reflexivity.
-  - rewrite fold_left_app, upserts_settled. reflexivity.
+  - unfold bulk_script. apply ends_with_cc_settled.
   - reflexivity.
   - reflexivity.
   - reflexivity.
   - reflexivity.
   - destruct (limit =? 0); reflexivity.
   - reflexivity.
-  - rewrite fold_left_app, upserts_settled. reflexivity.
+  - apply ends_with_cc_settled.
 Qed.
 
 Lemma hist_settled : forall h c, fold_left settle (hist_script c h) true = true.
